@@ -339,3 +339,88 @@ pub fn rcv_line(toks: &[&str]) -> String {
     let g = if sh.groups.is_empty() { "-".to_string() } else { show_groups(&sh.groups) };
     format!("{} => {} file={}", g, status, fin)
 }
+
+
+/// Two real receive workers on ONE path (a retransmitted / duplicate WRQ): worker A is accepted first and
+/// then hears nothing; worker B is accepted second and completes its upload; afterwards A runs into its
+/// retry limit. `dupwrq <b> <w> <clean> <content>` -> what is left at the path.
+pub fn dupwrq_line(toks: &[&str]) -> String {
+    if toks.len() != 5 {
+        return "bad-op".into();
+    }
+    let (Ok(b), Ok(w), Some(content)) = (toks[1].parse::<usize>(), toks[2].parse::<u16>(), parse_content(toks[4])) else {
+        return "bad-op".into();
+    };
+    let clean = toks[3] == "1";
+    let path = fresh_path();
+    // worker A: its script is empty until the gate opens; then six failed receives
+    let gate = Arc::new((Mutex::new(false), std::sync::Condvar::new()));
+    struct Gated {
+        gate: Arc<(Mutex<bool>, std::sync::Condvar)>,
+    }
+    impl Socket for Gated {
+        fn send(&self, _p: &Packet) -> Result<(), Box<dyn Error>> {
+            Ok(())
+        }
+        fn send_to(&self, _p: &Packet, _to: &SocketAddr) -> Result<(), Box<dyn Error>> {
+            Ok(())
+        }
+        fn recv_with_size(&self, _size: usize) -> Result<Packet, Box<dyn Error>> {
+            let (m, cv) = &*self.gate;
+            let mut open = m.lock().unwrap();
+            while !*open {
+                open = cv.wait(open).unwrap();
+            }
+            Err("timeout".into())
+        }
+        fn recv_from_with_size(&self, size: usize) -> Result<(Packet, SocketAddr), Box<dyn Error>> {
+            Ok((self.recv_with_size(size)?, "127.0.0.1:1".parse().unwrap()))
+        }
+        fn remote_addr(&self) -> Result<SocketAddr, Box<dyn Error>> {
+            Ok("127.0.0.1:1".parse().unwrap())
+        }
+        fn set_read_timeout(&mut self, _d: Duration) -> Result<(), Box<dyn Error>> {
+            Ok(())
+        }
+        fn set_write_timeout(&mut self, _d: Duration) -> Result<(), Box<dyn Error>> {
+            Ok(())
+        }
+    }
+    let wa = Worker::new(Box::new(Gated { gate: gate.clone() }), path.clone(), clean, b, Duration::from_secs(5), w, 1);
+    let ha = wa.receive().unwrap();
+    // give A's thread time to create the file (it then blocks at the gate)
+    for _ in 0..200 {
+        if path.exists() {
+            break;
+        }
+        std::thread::sleep(Duration::from_millis(1));
+    }
+    // worker B: a complete upload of `content`
+    let mut script = VecDeque::new();
+    let nblocks = content.len() / b + 1;
+    for k in 0..nblocks {
+        let lo = k * b;
+        let hi = std::cmp::min(lo + b, content.len());
+        script.push_back(Ev::Deliver(Packet_::Data(((k + 1) % 65536) as u16, content[lo..hi].to_vec()), 0));
+    }
+    let sh = Arc::new(Mutex::new(Shared { script, groups: vec![], exhausted: false, ended: false, after_end: 0, snapshot: None }));
+    let wb = Worker::new(Box::new(Scripted { sh: sh.clone() }), path.clone(), clean, b, Duration::from_secs(5), w, 1);
+    let sb = run_and_classify(sh.clone(), move || wb.receive().unwrap());
+    let after_b = match std::fs::read(&path) {
+        Ok(c) => format!("{}:{}", c.len(), fnv(&c)),
+        Err(_) => "none".to_string(),
+    };
+    // now the stale worker A times out
+    {
+        let (m, cv) = &*gate;
+        *m.lock().unwrap() = true;
+        cv.notify_all();
+    }
+    let _ = ha.join();
+    let after_a = match std::fs::read(&path) {
+        Ok(c) => format!("{}:{}", c.len(), fnv(&c)),
+        Err(_) => "none".to_string(),
+    };
+    let _ = std::fs::remove_file(&path);
+    format!("second={} after-second={} after-stale-timeout={}", sb, after_b, after_a)
+}
